@@ -14,6 +14,7 @@ mod c13;
 mod c14;
 mod c15;
 mod c18;
+mod c18e;
 mod c19;
 mod c20;
 mod gate;
@@ -66,6 +67,7 @@ fn main() {
         ("c18", "run") => c18::cmd_run(rest),
         ("c18", "learn") => c18::cmd_learn(rest),
         ("c18", "stress") => c18::cmd_stress(rest),
+        ("c18", "e2e") => c18e::cmd_e2e(rest),
         ("c19", "run") => c19::cmd_run(rest),
         ("c19", "learn") => c19::cmd_learn(rest),
         ("c19", "stress") => c19::cmd_stress(rest),
